@@ -519,6 +519,39 @@ impl Property for C16 {
                 if !faults.is_empty() && !faults.iter().any(|f| matches!(f, Fault::None | Fault::Short(_))) {
                     faults.push(Fault::None);
                 }
+                // keep the time a session needs to drain bounded (a few seconds even on a
+                // loaded machine), so that the drain watchdog means "stuck", not "slow":
+                // the peer must be able to read everything in <= ~3 s ...
+                let total: usize = ops
+                    .iter()
+                    .map(|o| match o {
+                        TOp::Write(n) => *n + 16,
+                        TOp::Execute(_) => 64,
+                        _ => 0,
+                    })
+                    .sum();
+                let mut bite = bite;
+                if bite != 0 {
+                    let per_read_us = pause_us + 30;
+                    let min_bite = (total * per_read_us).div_ceil(3_000_000);
+                    bite = bite.max(min_bite).max(1);
+                }
+                // ... and the writer must get there in <= ~300k write attempts
+                if !faults.is_empty() {
+                    let progress = |fs: &[Fault]| -> usize {
+                        fs.iter()
+                            .map(|f| match f {
+                                Fault::None => 4096,
+                                Fault::Short(n) => *n as usize,
+                                _ => 0,
+                            })
+                            .sum::<usize>()
+                            / fs.len()
+                    };
+                    while total / progress(&faults).max(1) > 300_000 {
+                        faults.push(Fault::None);
+                    }
+                }
                 Case::Pty { ops, bite, pause_us, faults }
             });
         prop_oneof![12 => queue, 1 => pty].boxed()
